@@ -10,6 +10,7 @@ import AlphaG.Driver.C10
 import AlphaG.Driver.C13
 import AlphaG.Driver.C13b
 import AlphaG.Driver.C14b
+import AlphaG.Driver.C14c
 import AlphaG.Driver.C15
 import AlphaG.Driver.C15b
 import AlphaG.Driver.C16
@@ -32,6 +33,7 @@ def main : IO Unit := Driver.run [
   AlphaG.Driver.C13.handle,
   AlphaG.Driver.C13b.handle,
   AlphaG.Driver.C14b.handle,
+  AlphaG.Driver.C14c.handle,
   AlphaG.Driver.C15.handle,
   AlphaG.Driver.C15b.handle,
   AlphaG.Driver.C16.handle,
